@@ -100,11 +100,9 @@ func c09a(c *Ctx, r *Report) {
 				}
 			}
 		case *ast.IfStmt:
-			if be, ok := unparen(x.Cond).(*ast.BinaryExpr); ok && be.Op == token.EQL && identObj(info, be.X) == change {
-				if v, isC := constInt(info, be.Y); isC && v == 0 && len(x.Body.List) == 1 {
-					if br, ok := x.Body.List[0].(*ast.BranchStmt); ok && br.Tok == token.BREAK {
-						exitOK = true
-					}
+			if change != nil && trueIffUnchanged(info, x.Cond, change) && len(x.Body.List) == 1 {
+				if br, ok := x.Body.List[0].(*ast.BranchStmt); ok && br.Tok == token.BREAK {
+					exitOK = true
 				}
 			}
 		}
